@@ -274,7 +274,9 @@ impl Blockchain {
             );
             return AddBlockResult::FailedNotValid;
         }
-        if block.block_type == BlockType::Full
+        // (a copy stripped of its transactions decodes as a header block: it does not carry
+        // what its header commits to either)
+        if matches!(block.block_type, BlockType::Full | BlockType::Header)
             && !configs.is_spv_mode()
             && !configs.is_browser()
             && block.merkle_root != block.generate_merkle_root(false, false)
